@@ -7,7 +7,7 @@ from values import QForall, Rec
 import C05
 
 PROP = 'C07'
-CONFIGS = [{'SIMUCELL3D_VERIF_CONTACT_MODEL_INDEX': 1}]
+CONFIGS = [{'SIMUCELL3D_VERIF_CONTACT_MODEL_INDEX': 1}, {'SIMUCELL3D_VERIF_CONTACT_MODEL_INDEX': 0}, {'SIMUCELL3D_VERIF_CONTACT_MODEL_INDEX': 2}]
 I = z3.IntSort(); R = z3.RealSort()
 CM = 'contact_model_abstract.'
 
@@ -53,7 +53,7 @@ def pre_nn(C):
             ('face-type-index-valid', z3.And(o.f(f, 'face.type_id_') >= 0, o.f(f, 'face.type_id_') < o.len(ft)))]
 
 
-def post_nn(C):
+def post_nn(C, couplings=True):
     o, n = C.old, C.new
     c1, c2, n1, f = C.val('c1').ref, C.val('c2').ref, C.arg('n1').ref, C.val('f').ref
     fn = nodes_of_face(o, c2, f)
@@ -83,6 +83,7 @@ def post_nn(C):
                 ('force-only-on-the-forbidden-side', z3.Implies(forced, z3.If(flipped, side >= 0, side < 0)))]
     else:
         out += [('no-force-without-a-distance-test', z3.Not(forced))]
+    if not couplings: return out
     # couplings
     cpl_new = n.f(n1, 'node.coupled_node_.has'); cpl_changed = z3.Or(n.f(n1, 'node.coupled_node_.has') != o.f(n1, 'node.coupled_node_.has'),
                                                                        n.f(n1, 'node.coupled_node_.value.first') != o.f(n1, 'node.coupled_node_.value.first'),
@@ -117,6 +118,155 @@ def post_reset(C):
             ('closest-distance-reset', z3.Implies(used, n.f(nd, 'node.squared_distance_to_closest_node_') == z3.RealVal(fractions.Fraction(_sys.float_info.max))))]
 
 
+# ---------------------------------------------------------------------------------------------------------------------------------
+# contact model 0: node-face springs (adhesion on the allowed side, repulsion on the forbidden side)
+NF = 'contact_node_face_via_spring.'
+
+
+def pre_nf(C):
+    o = C.old
+    c1, n1, f = C.val('c1').ref, C.arg('n').ref, C.val('f').ref
+    c2 = o.f(f, 'face.owner_cell_')
+    fn = nodes_of_face(o, c2, f)
+    lst2 = o.sub(c2, 'cell.node_lst_')
+    pos = [o.v3(r, 'node.pos_') for r in fn]
+    nrm = (pos[1] - pos[0]).cross(pos[2] - pos[0])
+    ids = [o.f(f, 'face.n%d_id_' % k) for k in (1, 2, 3)]
+    ft = o.sub(o.f(c2, 'cell.cell_type_'), 'cell_type_parameters.face_types_')
+    adh = o.f(C.this, CM + 'interaction_cutoff_adhesion_')
+    return [('cells-and-face-non-null', z3.And(c1 > 0, c2 > 0, f > 0, o.f(c2, 'cell.cell_type_') > 0, o.f(c1, 'cell.cell_type_') > 0)),
+            ('two-different-cells', c1 != c2),
+            ('face-nodes-in-range', z3.And(*[z3.And(i >= 0, i < o.len(lst2)) for i in ids])),
+            ('face-is-stored-in-its-own-slot', z3.And(o.f(f, 'face.local_face_id_') >= 0, o.f(f, 'face.local_face_id_') < o.len(o.sub(c2, 'cell.face_lst_')),
+                                                       f == o.elem(o.sub(c2, 'cell.face_lst_'), o.f(f, 'face.local_face_id_')))),
+            ('face-has-three-distinct-nodes', z3.And(ids[0] != ids[1], ids[0] != ids[2], ids[1] != ids[2])),
+            ('node-belongs-to-another-cell', C.e.uf('elem_v', I, I)(n1) != lst2),
+            ('face-non-degenerate', nrm.sq() > 0),
+            ('face-area-nonneg', o.f(f, 'face.area_') >= 0),
+            ('strengths-nonneg', QForall(lambda k: z3.And(o.f(o.elem(ft, k), 'face_type_parameters.repulsion_strength_') >= 0,
+                                                           o.f(o.elem(ft, k), 'face_type_parameters.adherence_strength_') >= 0), 1, 'every face type has non-negative strengths')),     # C18
+            ('cutoffs', z3.And(adh >= 0, o.f(C.this, CM + 'interaction_cutoff_square_adhesion_') == adh * adh,                            # constructor of the base class
+                               o.f(C.this, NF + 'interaction_cutoff_square_') >= o.f(C.this, CM + 'interaction_cutoff_square_adhesion_'),
+                               o.f(C.this, NF + 'interaction_cutoff_square_') >= o.f(C.this, CM + 'interaction_cutoff_square_repulsion_'))),
+            ('face-type-index-valid', z3.And(o.f(f, 'face.type_id_') >= 0, o.f(f, 'face.type_id_') < o.len(ft))),
+            ('an-epithelial-cell-type-defines-the-three-labels-apical-lateral-basal',
+             z3.Implies(C.e.uf('dyntype', I, I)(c2) == C.e.class_id('epithelial_cell'), o.len(ft) >= 3))]
+
+
+def post_nf(C):
+    o, n = C.old, C.new
+    c1, n1, f = C.val('c1').ref, C.arg('n').ref, C.val('f').ref
+    c2 = o.f(f, 'face.owner_cell_')
+    fn = nodes_of_face(o, c2, f)
+    d = lambda r: n.v3(r, 'node.force_') - o.v3(r, 'node.force_')
+    dn, df = d(n1), [d(r) for r in fn]
+    total = dn + df[0] + df[1] + df[2]
+    zero = V3(z3.RealVal(0), z3.RealVal(0), z3.RealVal(0))
+    other = z3.Int('any_other_node')
+    p = o.v3(n1, 'node.pos_'); tri = [o.v3(r, 'node.pos_') for r in fn]
+    g = C.post_state.ghost
+    t1 = o.f(o.f(c1, 'cell.cell_type_'), 'cell_type_parameters.global_type_id_'); t2 = o.f(o.f(c2, 'cell.cell_type_'), 'cell_type_parameters.global_type_id_')
+    forced = z3.Not(dn.eq(zero))
+    out = [('action-equals-reaction', total.eq(zero)),
+           ('only-the-four-nodes-receive-force', z3.Implies(z3.And(other != n1, other != fn[0], other != fn[1], other != fn[2]), n.v3(other, 'node.force_').eq(o.v3(other, 'node.force_')))),
+           ('positions-untouched', z3.And(n.arr('node.pos_.dx_') == o.arr('node.pos_.dx_'), n.arr('node.pos_.dy_') == o.arr('node.pos_.dy_'), n.arr('node.pos_.dz_') == o.arr('node.pos_.dz_')))]
+    d2 = g['kernel_ret'].f['first']; bary = V3.of(g['kernel_ret'].f['second'])
+    q = tri[0] * bary.x + tri[1] * bary.y + tri[2] * bary.z
+    nf = o.v3(f, 'face.normal_')
+    side = (p - q).dot(nf)
+    flipped = z3.Or(z3.And(t1 == 0, t2 == 1), z3.And(t1 == 3, t2 == 0))
+    forbidden = z3.If(flipped, side > 0, side <= 0)
+    ft = o.sub(o.f(c2, 'cell.cell_type_'), 'cell_type_parameters.face_types_')
+    ftype = o.elem(ft, n.f(f, 'face.type_id_'))            # the repulsion branch reads the face type after the polarisation relabelling
+    krep = o.f(ftype, 'face_type_parameters.repulsion_strength_'); area = o.f(f, 'face.area_')
+    out += [('force-only-within-the-cutoff-of-its-kind', z3.Implies(forced, z3.If(forbidden, d2 < o.f(C.this, CM + 'interaction_cutoff_square_repulsion_'),
+                                                                                  d2 < o.f(C.this, CM + 'interaction_cutoff_square_adhesion_')))),
+            ('force-on-node-is-parallel-to-the-line-to-the-closest-surface-point', dn.cross(q - p).eq(zero)),
+            ('force-on-node-points-toward-the-closest-surface-point', dn.dot(q - p) >= 0),
+            ('reaction-is-distributed-by-the-barycentric-weights', z3.And(df[0].eq(dn * (-bary.x)), df[1].eq(dn * (-bary.y)), df[2].eq(dn * (-bary.z)))),
+            ('on-the-forbidden-side-within-the-cutoff-the-spring-pushes-back', z3.Implies(z3.And(forbidden, d2 != 0, d2 < o.f(C.this, CM + 'interaction_cutoff_square_repulsion_')),
+                                                                                         dn.eq((q - p) * (krep * area))))]
+    return out
+
+
+def build_model0(reg, k):
+    # the virtual call c2->face_is_in_contact(face, c1) is executed by dynamic dispatch over every concrete cell class (the base version does nothing,
+    # the epithelial override relabels that one face)
+    reg.add(Contract('contact_node_face_via_spring::apply_contact_forces', PROP, pre=pre_nf, post=post_nf, use=[k], safety={'bounds'}, split_heap_ifs=True,
+                     assigns=['node.force_.dx_', 'node.force_.dy_', 'node.force_.dz_', 'face.type_id_']))
+
+
+# ---------------------------------------------------------------------------------------------------------------------------------
+# contact model 2: face-face coupling (couplings kept in a per-node map keyed by the partner cell); the repulsion rule is the one of model 1
+def post_ff(C):
+    o, n = C.old, C.new
+    out = post_nn(C, couplings=False)
+    c1, c2, n1, f = C.val('c1').ref, C.val('c2').ref, C.arg('n1').ref, C.val('f').ref
+    fn = nodes_of_face(o, c2, f)
+    t1 = o.f(o.f(c1, 'cell.cell_type_'), 'cell_type_parameters.global_type_id_'); t2 = o.f(o.f(c2, 'cell.cell_type_'), 'cell_type_parameters.global_type_id_')
+    keys = ('sset.member', 'vec.data.pair.first', 'vec.data.pair.second')
+    anymap = z3.Int('any_coupling_map')
+    changed = lambda m: z3.Or(*[z3.Select(n.arr(k), m) != z3.Select(o.arr(k), m) for k in keys])
+    m1 = o.sub(n1, 'node.coupled_nodes_map_'); mf = [o.sub(r, 'node.coupled_nodes_map_') for r in fn]
+    sel = lambda view, k, m, key: z3.Select(z3.Select(view.arr(k), m), key)
+    l1 = o.f(c1, 'cell.local_id_'); l2 = o.f(c2, 'cell.local_id_')
+    d = lambda r: n.v3(r, 'node.force_') - o.v3(r, 'node.force_')
+    zero = V3(z3.RealVal(0), z3.RealVal(0), z3.RealVal(0))
+    forced = z3.Not(d(n1).eq(zero))
+    adh2 = o.f(C.this, CM + 'interaction_cutoff_square_adhesion_')
+    p = o.v3(n1, 'node.pos_')
+    partner = lambda r, m: z3.And(sel(n, 'sset.member', m1, l2), sel(n, 'vec.data.pair.first', m1, l2) == o.f(r, 'node.node_id_'),
+                                  sel(n, 'vec.data.pair.second', m1, l2) == (p - o.v3(r, 'node.pos_')).sq(), (p - o.v3(r, 'node.pos_')).sq() < adh2,
+                                  sel(n, 'sset.member', m, l1), sel(n, 'vec.data.pair.first', m, l1) == o.f(n1, 'node.node_id_'),
+                                  sel(n, 'vec.data.pair.second', m, l1) == (p - o.v3(r, 'node.pos_')).sq())
+    out += [('coupling-only-between-epithelial-cells', z3.Implies(changed(anymap), z3.And(t1 == 0, t2 == 0))),
+            ('only-the-maps-of-the-node-and-of-the-face-nodes-change', z3.Implies(changed(anymap), z3.Or(anymap == m1, *[anymap == m for m in mf]))),
+            ('a-new-coupling-is-mutual-designates-a-node-of-the-face-and-lies-within-the-adhesion-cutoff',
+             z3.Implies(changed(anymap), z3.Or(*[partner(r, m) for r, m in zip(fn, mf)]))),
+            ('coupling-or-force-never-both', z3.Implies(changed(anymap), z3.Not(forced)))]
+    return out
+
+
+def pre_ff(C):
+    o = C.old
+    c2, n1, f = C.val('c2').ref, C.arg('n1').ref, C.val('f').ref
+    fn = nodes_of_face(o, c2, f)
+    maps = [o.sub(r, 'node.coupled_nodes_map_') for r in [n1] + fn]
+    import sys as _sys, fractions
+    return pre_nn(C) + [('the-adhesion-cutoff-is-a-finite-double', o.f(C.this, CM + 'interaction_cutoff_square_adhesion_') <= z3.RealVal(fractions.Fraction(_sys.float_info.max))),
+                        ('the-coupling-maps-of-the-four-nodes-are-four-objects', z3.Distinct(*maps)),
+                        ('face-nodes-are-three-objects', z3.Distinct(n1, *fn))]
+
+
+def build_model2(reg, k):
+    reg.add(Contract('contact_face_face_via_coupling::resolve_contact', PROP, pre=pre_ff, post=post_ff, use=[k], safety={'bounds'}, split_heap_ifs=True,
+                     assigns=['node.force_.dx_', 'node.force_.dy_', 'node.force_.dz_', 'sset.member', 'set.size', 'vec.data.pair.first', 'vec.data.pair.second']))
+
+
+# ---------------------------------------------------------------------------------------------------------------------------------
+# call sites: the candidate loops hand a pair to the contact rule only if the face belongs to another cell
+def site_contract(qname, c1name, c2expr):
+    def pre(C):
+        c1 = C.val(c1name).ref; f = C.val('f').ref
+        c2 = c2expr(C, f)
+        return [('the-face-belongs-to-another-cell', c1 != c2)]
+    return Contract(qname, PROP, pre=pre, frame=lambda C: [('*', None)], name=qname.split('::')[-1] + ' (precondition of the contact rule at its call site)')
+
+
+def build_sites(reg, cfg):
+    import C06
+    m = cfg['SIMUCELL3D_VERIF_CONTACT_MODEL_INDEX']
+    if m in (1, 2):
+        cls = {1: 'contact_node_node_via_coupling', 2: 'contact_face_face_via_coupling'}[m]
+        callee = site_contract(cls + '::resolve_contact', 'c1', lambda C, f: C.val('c2').ref)
+        reg.add(Contract(cls + '::resolve_all_contacts', PROP, pre=C06.pre_candidates, post=lambda C: [], slice_loop=2,
+                         use=[callee, C06.aabb_contract()], name=cls + '::resolve_all_contacts::<candidate loop body: same-cell exclusion>'))
+    if m == 0:
+        callee = site_contract('contact_node_face_via_spring::apply_contact_forces', 'c1', lambda C, f: C.old.f(f, 'face.owner_cell_'))
+        reg.add(Contract('contact_node_face_via_spring::resolve_contacts', PROP, pre=C06.pre_candidates, post=lambda C: [], slice_loop=2,
+                         use=[callee, C06.aabb_contract()], name='contact_node_face_via_spring::resolve_contacts::<candidate loop body: same-cell exclusion>'))
+
+
 def build(reg, cfg):
     k = kernel_contract(); k.ret_model = kernel_ret_model
     if cfg['SIMUCELL3D_VERIF_CONTACT_MODEL_INDEX'] == 1:
@@ -125,21 +275,37 @@ def build(reg, cfg):
                                   'node.coupled_node_.value.second', 'node.squared_distance_to_closest_node_']))
         # couplings of the previous iteration never survive: body of the per-node reset loop of run()
         reg.add(Contract('contact_node_node_via_coupling::run', PROP, post=post_reset, slice_loop=2, name='contact_node_node_via_coupling::run::<coupling reset loop>'))
+    if cfg['SIMUCELL3D_VERIF_CONTACT_MODEL_INDEX'] == 0:
+        build_model0(reg, k)
+    if cfg['SIMUCELL3D_VERIF_CONTACT_MODEL_INDEX'] == 2:
+        build_model2(reg, k)
+    build_sites(reg, cfg)
 
 
-EXPLANATION = ("Contract on the per-pair rule of the node-node coupling contact model (contact_node_node_via_coupling::resolve_contact, the "
-               "configuration the repository ships), executed from the AST with the closest-point kernel replaced by its C05 contract. "
-               "Four kinds of paths (coupling created, no contact, contact not on the forbidden side, repulsion applied) are kept apart. "
-               "Proved on every path: sum of the force increments of the four nodes is zero; only those four nodes receive force; positions "
-               "untouched; any force implies d2 < max cut-off^2; the node's force is parallel to and points toward the closest surface point; "
-               "the reaction on the face nodes is minus the node force times the barycentric weights; force only on the forbidden side "
-               "(inside for ordinary pairs, the reverse for epithelial-in-ECM and nucleus-in-cell); a coupling is created only between two "
-               "epithelial cells, to a node of that face, within the adhesion cut-off, never together with a force. Plus the body of the "
-               "reset loop of run(): every live node starts the contact phase uncoupled (no coupling survives from the previous iteration).")
-ASSUMPTIONS = ["exact reals; std::numeric_limits<double>::max() is the real number DBL_MAX",
-               "caller obligations taken as preconditions: the two cells differ (guard in resolve_all_contacts + unique ids, C08), the face is a live face of c2 stored in its own slot with three distinct node ids in range (C01), non-degenerate, cached area >= 0 (C12), all repulsion strengths >= 0 and max cut-off >= both cut-offs (C18 / constructor)",
+EXPLANATION = ("Contracts on the per-pair rule of each of the three compile-time contact models, executed from the AST with the closest-point kernel replaced "
+               "by its C05 contract, plus the call sites. Model 1 (node-node coupling, the configuration the repository ships), "
+               "contact_node_node_via_coupling::resolve_contact: four kinds of paths (coupling created, no contact, contact not on the forbidden "
+               "side, repulsion applied) are kept apart. Proved on every path: sum of the force increments of the four nodes is zero; only those "
+               "four nodes receive force; positions untouched; any force implies d2 < max cut-off^2; the node's force is parallel to and points "
+               "toward the closest surface point; the reaction on the face nodes is minus the node force times the barycentric weights; force "
+               "only on the forbidden side (inside for ordinary pairs, the reverse for epithelial-in-ECM and nucleus-in-cell); a coupling is "
+               "created only between two epithelial cells, to a node of that face, within the adhesion cut-off, never together with a force. "
+               "Plus the body of the reset loop of run(): every live node starts the contact phase uncoupled. Model 0 (node-face springs), "
+               "contact_node_face_via_spring::apply_contact_forces with the virtual polarisation call dispatched over every concrete cell class: "
+               "same reciprocity / frame / direction / distribution clauses; a force implies d2 below the cut-off of its kind (repulsion cut-off "
+               "on the forbidden side, adhesion cut-off on the allowed side); on the forbidden side within the repulsion cut-off the force on the "
+               "node is exactly (closest point - node) * repulsion strength * face area. Model 2 (face-face coupling, couplings in a std::map per "
+               "node), contact_face_face_via_coupling::resolve_contact: the force clauses of model 1, and: a map changes only between two "
+               "epithelial cells, only the maps of the node and of the three face nodes change, a new coupling is mutual (node -> (position index "
+               "of c2, node of the face, squared distance) and that node -> (position index of c1, the node, same distance)), lies within the "
+               "adhesion cut-off, and never comes with a force. Call sites (all three models): in an arbitrary iteration of the candidate loop "
+               "the contact rule is called only with a face whose owner is another cell object than the node's cell (precondition "
+               "'two-different-cells' of the rule checked at the call).")
+ASSUMPTIONS = ["exact reals; std::numeric_limits<double>::max() is the real number DBL_MAX; the adhesion cut-off squared is a finite double",
+               "caller obligations taken as preconditions of the per-pair rule: the face is a live face of c2 stored in its own slot with three distinct node ids in range (C01), non-degenerate, cached area >= 0 (C12), all strengths >= 0 and max cut-off >= both cut-offs (C18 / constructors, C06-D0); 'the two cells differ' is checked at the call sites",
                "the kernel is used through its contract (proved in C05) rather than re-executed",
-               "contact models 0 (node-face springs) and 2 (face-face coupling) are not under contract in this check"]
-UNVERIFIED = ["contact_node_face_via_spring::apply_contact_forces and contact_face_face_via_coupling::resolve_contact (other compile-time configurations)",
-              "the midpoint snap of coupled nodes at the end of resolve_all_contacts",
-              "mutuality of couplings (a node's previous partner keeps pointing at it): observed, not required by the property"]
+               "model 0: an epithelial cell type defines at least the three face types apical / lateral / basal (the polarisation relabels a face to 0, 1 or 2 and the repulsion branch then reads that face type; the parameter reader only requires one face type per cell type)",
+               "model 2: the coupling maps of the four nodes are four different objects (one map per node)"]
+UNVERIFIED = ["the midpoint snap of coupled nodes at the end of resolve_all_contacts (models 1 and 2)",
+              "mutuality of couplings in model 1 (a node's previous partner keeps pointing at it): observed, not required by the property",
+              "model 2 looks up an existing coupling with the partner cell's persistent id (find(c2->get_id())) but stores it under the position index (get_local_id()): after a division the two differ and the 'closest so far' comparison reads another cell's entry; the clauses of this property (reciprocity, cut-offs, same-cell exclusion, direction) do not depend on it"]
